@@ -32,6 +32,61 @@ fn response_objects(r: &mut Rng, req: &[u8], want_measurements: bool) -> Vec<u8>
         ra::F_SELECT | ra::F_OPERATE | ra::F_DIRECT_OPERATE => req[2..].to_vec(), // faithful echo
         ra::F_DELAY_MEASURE => ra::B { bytes: vec![] }.count8(52, 2, 1, &[0, 0]).bytes,
         ra::F_COLD_RESTART | ra::F_WARM_RESTART => ra::B { bytes: vec![] }.count8(52, 2, 1, &[10, 0]).bytes,
+        ra::F_READ if req.len() >= 16 && req[2] == 70 && req[3] == 5 => {
+            // file block read: answer with the last block
+            let mut o = vec![];
+            o.extend_from_slice(&req[8..12]);
+            let block = u32::from_le_bytes([req[12], req[13], req[14], req[15]]) | 0x8000_0000;
+            o.extend_from_slice(&block.to_le_bytes());
+            o.extend_from_slice(b"hello");
+            let mut b = vec![70, 5, 0x5B, 1];
+            b.extend_from_slice(&(o.len() as u16).to_le_bytes());
+            b.extend(o);
+            b
+        }
+        26 => {
+            // CLOSE_FILE: status object
+            let mut o = vec![];
+            o.extend_from_slice(&0x0A0B0C0Du32.to_le_bytes());
+            o.extend_from_slice(&0u32.to_le_bytes());
+            o.extend_from_slice(&0u16.to_le_bytes());
+            o.extend_from_slice(&0u16.to_le_bytes());
+            o.push(0);
+            let mut b = vec![70, 4, 0x5B, 1];
+            b.extend_from_slice(&(o.len() as u16).to_le_bytes());
+            b.extend(o);
+            b
+        }
+        28 => {
+            // GET_FILE_INFO: a file descriptor (g70v7, free format)
+            let name = b"file.txt";
+            let mut o = vec![];
+            o.extend_from_slice(&20u16.to_le_bytes());
+            o.extend_from_slice(&(name.len() as u16).to_le_bytes());
+            o.extend_from_slice(&1u16.to_le_bytes());
+            o.extend_from_slice(&(r.u32() % 100_000).to_le_bytes());
+            o.extend_from_slice(&ra::time48(1_600_000_000_000));
+            o.extend_from_slice(&0x1FFu16.to_le_bytes());
+            o.extend_from_slice(&0u16.to_le_bytes());
+            o.extend_from_slice(name);
+            let mut b = vec![70, 7, 0x5B, 1];
+            b.extend_from_slice(&(o.len() as u16).to_le_bytes());
+            b.extend(o);
+            b
+        }
+        25 => {
+            // OPEN_FILE: status object (g70v4)
+            let mut o = vec![];
+            o.extend_from_slice(&0x0A0B0C0Du32.to_le_bytes());
+            o.extend_from_slice(&10u32.to_le_bytes());
+            o.extend_from_slice(&64u16.to_le_bytes());
+            o.extend_from_slice(&0u16.to_le_bytes());
+            o.push(0);
+            let mut b = vec![70, 4, 0x5B, 1];
+            b.extend_from_slice(&(o.len() as u16).to_le_bytes());
+            b.extend(o);
+            b
+        }
         _ => vec![],
     }
 }
@@ -168,7 +223,9 @@ async fn scenario(a: &ShardArgs, idx: u64) {
             break;
         }
         // ---- submit a task
-        let (req, kind): (UserReq, &str) = match r.below(8) {
+        let (req, kind): (UserReq, &str) = match r.below(10) {
+            8 => (UserReq::GetFileInfo, "file-info"),
+            9 => (UserReq::ReadFile(64), "file-open"),
             0 | 1 => (UserReq::ReadClasses([true, r.bool(), r.bool(), false]), "read"),
             2 => (UserReq::Command(false, vec![(r.below(5) as u8, r.below(30) as u16, r.bool(), r.u32() % 1000)]), "direct-operate"),
             3 => (UserReq::Command(true, vec![(r.below(5) as u8, r.below(30) as u16, r.bool(), r.u32() % 1000)]), "select-operate"),
@@ -383,6 +440,20 @@ async fn scenario(a: &ShardArgs, idx: u64) {
                             cur_seq = cur_req[0] & 0x0F;
                             hist.push(format!("t={} -> WRITE seq={cur_seq}", sim.now()));
                         }
+                    } else if kind == "file-open" && (cur_req[1] == 25 || cur_req[1] == ra::F_READ) {
+                        // OPEN answered -> the master reads block 0; the (last) block answered -> terminal callback, then CLOSE
+                        let want = if cur_req[1] == 25 { ra::F_READ } else { 26 };
+                        if non_confirms.len() != 1 || non_confirms[0][1] != want {
+                            viol("file_next_step", kind, format!("after the faithful answer to function {} the master did not send function {want}", cur_req[1]), &hist);
+                            outcome_expected = Some(false);
+                        } else {
+                            if want == 26 {
+                                outcome_expected = Some(true);
+                            }
+                            cur_req = non_confirms[0].clone();
+                            cur_seq = cur_req[0] & 0x0F;
+                            hist.push(format!("t={} -> function {} seq={cur_seq}", sim.now(), cur_req[1]));
+                        }
                     } else {
                         outcome_expected = Some(true);
                     }
@@ -402,6 +473,13 @@ async fn scenario(a: &ShardArgs, idx: u64) {
                     }
                 }
             }
+        }
+        // a file read ends with a CLOSE after its terminal callback: answer it so that the channel is free again
+        if kind == "file-open" && cur_req[1] == 26 {
+            let objs = response_objects(&mut r, &cur_req, false);
+            sim.send_from(dest, &ra::B::response(ra::FIR | ra::FIN | cur_seq, false, 0, 0).raw(&objs).done());
+            settle().await;
+            let _ = sim.collect();
         }
         // ---- let the task end (timeout if nothing decided it)
         if sim.result_of(id).is_none() {
